@@ -55,11 +55,19 @@ type chanModel struct {
 }
 
 type wgModel struct {
-	id  int
-	cnt int
+	id      int
+	cnt     int // WaitGroup counter; for a mutex: 1 while held exclusively
+	readers int // RWMutex: number of shared holders
 }
 
+// SpinTag marks the scheduling point the instrumenter puts into the body of a loop that polls an
+// atomic: the goroutine says "I am waiting".  Such a transition is ordered after all others and
+// switching away from it is free (fair scheduling: a spinner must not starve the goroutine it waits
+// for); a state that repeats while only spinners can move is a livelock.
+const SpinTag = "spin"
+
 type transition struct {
+	spin bool
 	a, b int  // goroutine ids; b = -1 if single
 	alt  int  // value handed to a when it is woken (choice alternative / select case; -1 = default)
 	altB int  // value handed to b
@@ -213,7 +221,7 @@ func preHook(kind vsrt.Kind, obj interface{}, n int) {
 		o.obj = reflect.ValueOf(obj).Pointer()
 		x.chanOf(obj)
 		x.mu.Unlock()
-	case vsrt.KWgAdd, vsrt.KWgWait:
+	case vsrt.KWgAdd, vsrt.KWgWait, vsrt.KLock, vsrt.KUnlock:
 		o.obj = reflect.ValueOf(obj).Pointer()
 		x.mu.Lock()
 		x.wgOf(o.obj)
@@ -343,10 +351,15 @@ func (x *Exec) enabled() []transition {
 		}
 		o := g.pending
 		switch o.kind {
-		case vsrt.KStart, vsrt.KWgAdd, vsrt.KClose:
+		case vsrt.KStart, vsrt.KWgAdd, vsrt.KClose, vsrt.KUnlock:
 			ts = append(ts, transition{a: g.ID, b: -1, desc: fmt.Sprintf("%s:%s", g.Name, vsrt.KindName[o.kind])})
+		case vsrt.KLock:
+			m := x.wgs[o.obj]
+			if m.cnt == 0 && (o.n == 1 || m.readers == 0) {
+				ts = append(ts, transition{a: g.ID, b: -1, desc: g.Name + ":lock"})
+			}
 		case vsrt.KYield:
-			ts = append(ts, transition{a: g.ID, b: -1, desc: fmt.Sprintf("%s:yield(%s)", g.Name, o.tag)})
+			ts = append(ts, transition{a: g.ID, b: -1, spin: o.tag == SpinTag, desc: fmt.Sprintf("%s:yield(%s)", g.Name, o.tag)})
 		case vsrt.KChoice:
 			for j := 0; j < o.n; j++ {
 				ts = append(ts, transition{a: g.ID, b: -1, alt: j, dev: j > 0, desc: fmt.Sprintf("%s:order(%s)=%d", g.Name, o.tag, j)})
@@ -412,6 +425,9 @@ func (x *Exec) enabled() []transition {
 	// canonical order: transitions of the goroutine that ran last first, then by id
 	last := x.lastRun
 	sort.SliceStable(ts, func(i, j int) bool {
+		if ts[i].spin != ts[j].spin {
+			return !ts[i].spin
+		}
 		li := ts[i].a == last || ts[i].b == last
 		lj := ts[j].a == last || ts[j].b == last
 		if li != lj {
@@ -432,7 +448,7 @@ func (x *Exec) enabled() []transition {
 	// a non-default iteration order is a deviation
 	runningEnabled := false
 	for _, t := range ts {
-		if t.a == last || t.b == last {
+		if (t.a == last || t.b == last) && !t.spin {
 			runningEnabled = true
 		}
 	}
@@ -469,7 +485,7 @@ func (x *Exec) key() uint64 {
 		switch g.pending.kind {
 		case vsrt.KSend, vsrt.KRecv, vsrt.KClose:
 			h = mix(h, uint64(x.chans[g.pending.obj].id))
-		case vsrt.KWgAdd, vsrt.KWgWait:
+		case vsrt.KWgAdd, vsrt.KWgWait, vsrt.KLock, vsrt.KUnlock:
 			h = mix(h, uint64(x.wgs[g.pending.obj].id))
 		case vsrt.KYield, vsrt.KChoice:
 			h = mix(h, strHash(g.pending.tag))
@@ -494,7 +510,7 @@ func (x *Exec) key() uint64 {
 	}
 	sort.Slice(ws, func(i, j int) bool { return ws[i].id < ws[j].id })
 	for _, w := range ws {
-		h = mix(h, uint64(w.id), uint64(w.cnt+1000))
+		h = mix(h, uint64(w.id), uint64(w.cnt+1000), uint64(w.readers))
 	}
 	// which goroutine ran last matters for the canonical order / costs
 	h = mix(h, uint64(x.lastRun+1))
@@ -516,6 +532,22 @@ func (x *Exec) fire(t transition) {
 		a.hist = mix(a.hist, uint64(o.kind), uint64(w.id), uint64(o.n+1000))
 	case vsrt.KWgWait:
 		a.hist = mix(a.hist, uint64(o.kind), uint64(x.wgs[o.obj].id))
+	case vsrt.KLock:
+		m := x.wgs[o.obj]
+		if o.n == 1 {
+			m.readers++
+		} else {
+			m.cnt = 1
+		}
+		a.hist = mix(a.hist, uint64(o.kind), uint64(m.id), uint64(o.n))
+	case vsrt.KUnlock:
+		m := x.wgs[o.obj]
+		if o.n == 1 {
+			m.readers--
+		} else {
+			m.cnt = 0
+		}
+		a.hist = mix(a.hist, uint64(o.kind), uint64(m.id), uint64(o.n))
 	case vsrt.KSend:
 		c := x.chans[o.obj]
 		a.hist = mix(a.hist, uint64(o.kind), uint64(c.id))
@@ -553,8 +585,11 @@ func (x *Exec) fire(t transition) {
 	case vsrt.KChoice:
 		a.hist = mix(a.hist, uint64(o.kind), strHash(o.tag), uint64(t.alt))
 	case vsrt.KYield:
+		if o.tag == SpinTag {
+			break // waiting changes nothing: the state repeats, which is how a livelock is recognised
+		}
 		a.hist = mix(a.hist, uint64(o.kind), strHash(o.tag))
-		if o.tag != "" {
+		if o.tag != "" && o.tag != "atomic" {
 			x.Marks = append(x.Marks, fmt.Sprintf("%s@%s", o.tag, a.Name))
 			if x.OnMark != nil {
 				x.OnMark(x, o.tag, a)
@@ -653,6 +688,7 @@ func run(prefix []int, body func(), onMark func(x *Exec, tag string, g *G)) *Exe
 	go x.runG(main, nil, body)
 	timer := time.NewTimer(30 * time.Second)
 	defer timer.Stop()
+	spinSeen := map[uint64]bool{}
 	for step := 0; ; step++ {
 		if !timer.Stop() {
 			select {
@@ -686,6 +722,22 @@ func run(prefix []int, body func(), onMark func(x *Exec, tag string, g *G)) *Exe
 				}
 			}
 			return x
+		}
+		allSpin := true
+		for _, t := range ts {
+			if !t.spin {
+				allSpin = false
+			}
+		}
+		if allSpin {
+			k := x.key()
+			if spinSeen[k] {
+				x.Err = "livelock: only goroutines polling an atomic can move and the state repeats: " + ts[0].desc
+				return x
+			}
+			spinSeen[k] = true
+		} else if len(spinSeen) > 0 {
+			spinSeen = map[uint64]bool{}
 		}
 		c := 0
 		if step < len(prefix) {
